@@ -57,6 +57,8 @@ package preprocessor
 // NormalizeURL: whatever is accepted went through the scheme / host gate, and the text stored
 // in URL.Raw is the serialisation taken after the fragment was cleared.
 //@ func NormalizeURL
+//@   attr safety C10
+//@   checks idx slice div
 //@   property C09
 //@   requires [non-nil] URL != nil && (parentURL != nil ==> parentURL.parsed != nil)
 //@   requires [sentinels] ErrUnsupportedScheme != nil && ErrUnsupportedHost != nil
